@@ -540,6 +540,11 @@ impl<'a> Ctx<'a> {
         // internal slots of the index in use (every successful insert takes a new one; a restart is
         // counted as if it compacted, so `compactions` is a lower bound)
         let mut slots: usize = 0;
+        if eng.is_none() {
+            // could not even create the engine: make the run visible to the judge (code 9) instead of empty
+            events.push(json!({"ev": "op", "op": {"t": "restart", "id": 0, "v": 0, "m": {"k1": 0, "k2": 0}, "merge": false,
+                               "ids": [], "fi": 0}, "res": "err", "census": [], "extra": 1, "hot": [], "why": "engine construction failed"}));
+        }
         let mut steps = h["steps"].as_array().cloned().unwrap_or_default();
         // every history ends with one more clean stop + strict recover
         steps.push(json!({"t": "restart", "id": 0, "v": 0, "m": {"k1": 0, "k2": 0}, "merge": false, "ids": [], "fi": 0}));
